@@ -286,6 +286,7 @@ class Exec:
     def __init__(self, fns, consts, enums, structs):
         self.fns, self.consts, self.enums, self.structs = fns, consts, dict(STD_ENUMS, **enums), structs
         self.structs.setdefault("Range", ["start", "end"]); self.structs.setdefault("RangeInclusive", ["start", "end", "exhausted"])
+        self.structs.setdefault("RangeTo", ["end"]); self.structs.setdefault("RangeToInclusive", ["end"]); self.structs.setdefault("RangeFrom", ["start"]); self.structs.setdefault("RangeFull", [])
         self.by_last = {}
         for n, f in fns.items():
             self.by_last.setdefault(n.split("::")[-1], []).append(f)
@@ -385,6 +386,7 @@ class Exec:
             if c in ("true", "false"): return c == "true"
             if re.match(r"^[A-Z]$", c) and self.cenv and c in self.cenv[-1]: return self.cenv[-1][c]
             if c == "()": return TupleV([])
+            if c in ("RangeFull", "std::ops::RangeFull"): return StructV("RangeFull", [])
             if c.startswith('"'): return c[1:-1]
             mch = re.match(r"^'(\\?.|\\u\{[0-9a-fA-F]+\})'$", c)
             if mch:
